@@ -19,6 +19,9 @@
 #define VM_STACK_INITIAL    4096
 #define VM_MAX_FRAMES       1024
 #define VM_MAX_GLOBALS      4096
+#ifdef NANOLANG_VERIF
+#include "verif_limits.h"   /* verification builds may shrink the limits above */
+#endif
 
 /* ========================================================================
  * Call Frame
